@@ -568,20 +568,67 @@ def run(index: RepoIndex, rep) -> None:
                 else:
                     rep.undecided('C13.R5', site, f'{w.cls} `{w.text[:50]}`: position not '
                                   f'bounded by the analysis')
-    # the boundary helpers themselves
+    # the boundary helpers themselves (read through their helpers, not matched as text)
+    from ..guards import expand_under, strip_iter, truth_under
+    from ..inline import inline_pure_exprs, pure_body_expr
     d = index.module('gym_gridverse/design.py')
     f = d.functions.get('draw_wall_boundary')
-    b = f.body() if f else []
-    rep.check(f is not None and len(b) == 1 and src(b[0]) == 'return draw_room(grid, grid.area, Wall)',
-              'C13.R5', d.relpath, 'draw_wall_boundary', f.node.lineno if f else 1,
-              src(b[-1]) if b else '', 'draw_wall_boundary does not draw walls around the whole '
-              'grid area', 'draw_wall_boundary')
-    f = d.functions.get('draw_area')
-    txt = src(f.node) if f else ''
-    rep.check("positions = list(area.positions('all' if fill else 'border'))" in txt and
-              'grid[pos] = factory()' in txt, 'C13.R5', d.relpath, 'draw_area',
-              f.node.lineno if f else 1, 'draw_area', 'draw_area does not write every border '
-              '(or every) position of the area', 'draw_area')
+    da = d.functions.get('draw_area')
+    if f is None or da is None:
+        raise AnalysisError('anchor vanished: design.draw_wall_boundary / draw_area')
+    e0 = pure_body_expr(f.node)
+    okw = False
+    if e0 is not None:
+        e1 = inline_pure_exprs(index, d, None, e0, keep=('draw_area',))
+        if isinstance(e1, ast.Call) and src(e1.func) == 'draw_area':
+            ps = [a_.arg for a_ in da.node.args.args + da.node.args.kwonlyargs]
+            got = dict(zip(ps, [src(a_) for a_ in e1.args]))
+            got.update({k.arg: src(k.value) for k in e1.keywords})
+            gp = f.node.args.args[0].arg
+            dflt = {k: (src(v) if v is not None else None)
+                    for k, v in da.param_defaults().items()}
+            okw = got.get(ps[0]) == gp and got.get(ps[1]) == f'{gp}.area' and \
+                got.get(ps[2]) == 'Wall' and got.get('fill', dflt.get('fill')) == 'False'
+    rep.check(okw, 'C13.R5', d.relpath, 'draw_wall_boundary', f.node.lineno,
+              src(e0) if e0 is not None else 'draw_wall_boundary',
+              'draw_wall_boundary does not draw walls around the whole grid area',
+              'draw_wall_boundary')
+    # draw_area: every selected position of the area receives a fresh object of the factory;
+    # the selection is the border unless `fill`
+    w = walk_function(da.node)
+    gp, ap, fp = [a_.arg for a_ in da.node.args.args[:3]]
+    stores = [e for e in w.events if e.kind == 'store' and isinstance(e.target, ast.Subscript)
+              and src(e.target.value) == gp]
+    okd = bool(stores)
+    sel_seen = {}
+    for fill in (False, True):
+        at = lambda a_, fill=fill: fill if src(a_) == 'fill' else None      # noqa: E731
+        live = [e for e in stores if truth_under(strip_iter(e.guard), at) is not False]
+        okd = okd and len(live) == 1
+        for e in live:
+            okd = okd and truth_under(strip_iter(e.guard), at) is True and \
+                src(e.value) == f'{fp}()' and len(e.loops) == 1 and \
+                src(e.target.slice) == src(e.loops[0][0])
+            if e.loops:
+                it = expand_under(w, e.loops[0][1], at)
+                while isinstance(it, ast.Call) and src(it.func) in ('list', 'tuple') and \
+                        len(it.args) == 1:
+                    it = it.args[0]
+                sel = None
+                if isinstance(it, ast.Call) and src(it.func) == f'{ap}.positions':
+                    a0 = it.args[0] if it.args else next(
+                        (k.value for k in it.keywords if k.arg == 'selection'), None)
+                    if isinstance(a0, ast.IfExp) and src(a0.test) == 'fill':
+                        a0 = a0.body if fill else a0.orelse
+                    elif isinstance(a0, ast.IfExp) and src(a0.test) == 'not fill':
+                        a0 = a0.orelse if fill else a0.body
+                    sel = "'all'" if a0 is None else src(a0)
+                sel_seen[fill] = sel
+    okd = okd and sel_seen.get(False) == "'border'" and sel_seen.get(True) == "'all'"
+    rep.check(okd, 'C13.R5', d.relpath, 'draw_area', da.node.lineno,
+              '; '.join(src(e.stmt) for e in stores)[:120] or 'draw_area',
+              f'draw_area does not write a fresh object on every border (or, when filling, '
+              f'every) position of the area (selections read: {sel_seen})', 'draw_area')
     # Area.positions: the border selection is exactly the border, the inside selection exactly
     # the strict interior (denotation of the method at eight small areas, see c11.scan_once)
     from .c11 import scan_once
